@@ -284,7 +284,15 @@ func (g *BatchGroupBy) encodeKey(dst []byte, b *vectorized.RecordBatch, rowIdx i
 //
 // This helper is shared by BatchGroupBy.encodeKey and BatchAggregation.computeKey
 // so the two operators agree on key equivalence (Copilot G3 review issues 1+2).
+//
+// Every component starts with a presence byte so a null cell never encodes like
+// the zero value of its column type (a null int tag is not the tag value 0; the
+// row path keeps them in separate groups as well).
 func appendKeyComponent(dst []byte, col vectorized.Column, rowIdx int) []byte {
+	if col.IsNull(rowIdx) {
+		return append(dst, keyComponentNull)
+	}
+	dst = append(dst, keyComponentPresent)
 	switch c := col.(type) {
 	case *vectorized.TypedColumn[int64]:
 		return appendIntKey(dst, c.Data()[rowIdx])
@@ -301,6 +309,11 @@ func appendKeyComponent(dst []byte, col vectorized.Column, rowIdx int) []byte {
 	}
 	return dst
 }
+
+const (
+	keyComponentNull    byte = 0
+	keyComponentPresent byte = 1
+)
 
 func appendIntKey(dst []byte, value int64) []byte {
 	var b [8]byte
